@@ -81,6 +81,30 @@ class Suite:
         return self._i2osp
 
 
+class GSuite(Suite):
+    """generic (G-mode) facts of the production library wrapped as a suite: bodies get synthetic ids; callees are
+    not resolved, so only models, trait-level uninterpreted calls and unambiguous crate-local paths are followed"""
+
+    def __init__(self, facts):
+        self.name = 'generic'
+        self.bodies = {}
+        self.leaves = {}
+        self.types = {}
+        self.by_generic = {}
+        self.by_path = {}
+        self._i2osp = {}
+        for i, b in enumerate(facts['bodies']):
+            b = dict(b)
+            b['id'] = i
+            b['generic_path'] = 'opaque_ke::' + b['path']
+            self.bodies[i] = b
+            self.by_generic.setdefault(b['generic_path'], []).append(b)
+            self.by_path.setdefault(b['path'], []).append(b)
+
+    def i2osp_ids(self):
+        return {}
+
+
 class State:
     __slots__ = ('cells', 'events', 'assume', 'rng', 'next_addr', 'facts')
 
@@ -341,7 +365,10 @@ class Interp:
             if ak == 'adt':
                 v = Adt(rv.get('adt_dpath', rv['adt']), rv['variant'], list(zip(rv['fields'], ops)))
                 if rv.get('adt_dpath', '').startswith('opaque_ke::'):
-                    st.ev('construct', rv['adt_dpath'], rv['variant'])
+                    if rv['adt_dpath'] in ('opaque_ke::keypair::PublicKey', 'opaque_ke::keypair::PrivateKey'):
+                        st.ev('construct', rv['adt_dpath'], rv['variant'], freeze(st, v))
+                    else:
+                        st.ev('construct', rv['adt_dpath'], rv['variant'])
                 return v
             if ak == 'tuple':
                 return ('tuple', tuple(ops)) if ops else UNIT
@@ -577,6 +604,11 @@ class Interp:
             if not (self.inline_kegroup and rtrait == KEGROUP):
                 yield from models.trait_call(self, st, rtrait, callee, argv, depth, t, dty)
                 return
+        if rid is None and getattr(self.suite, 'by_path', None) is not None and callee.get('local') and not callee.get('trait_dpath'):
+            c = self.suite.by_path.get(callee['path'], [])
+            if len(c) == 1 and depth < self.depth_cap:
+                yield from self.run(c[0]['id'], argv, st, depth + 1)
+                return
         if rid in self.suite.bodies:
             b = self.suite.bodies[rid]
             if b['crate'] in ('opaque_ke', 'suites', 'fixtures') and depth < self.depth_cap:
@@ -606,8 +638,9 @@ class Interp:
             dp = fn.get('dpath', '')
             if '{{constructor}}' in dp or dp.endswith('::{constructor#0}'):
                 adt = dp.rsplit('::', 1)[0]
-                st.ev('construct-fn', adt)
-                yield st, self.construct(adt, fn, args)
+                val = self.construct(adt, fn, args)
+                st.ev('construct-fn', adt, freeze(st, val))
+                yield st, val
                 return
             yield from self.call(st, fake, list(args), depth, dty)
             return
